@@ -141,6 +141,11 @@ class Multi:
             for v, c in vs.items():
                 yield k, v, c
 
+    def compact(self, nm):
+        for vs in self.d.values():
+            for v, c in vs.items():
+                vs[v] = [nm(x) for x in c]
+
 
 class Full:
     """RelFullIndexType<K,V> = hashbrown::HashMap<K,V>; V = () for relations, usize (row id) for lattices"""
@@ -206,6 +211,10 @@ class Full:
             r.d[k] = [And_(p, g), list(alts)]
         return r
 
+    def compact(self, nm):
+        for k, (p, alts) in self.d.items():
+            self.d[k] = [nm(p), [(nm(c), v) for c, v in alts] if len(alts) > 1 else alts]
+
     @staticmethod
     def ite(g, a, b):
         r = Full()
@@ -264,6 +273,11 @@ class LatSet:
             r.d[k] = {v: And_(c, g) for v, c in vs.items()}
         return r
 
+    def compact(self, nm):
+        for vs in self.d.values():
+            for v, c in vs.items():
+                vs[v] = nm(c)
+
     @staticmethod
     def ite(g, a, b):
         r = LatSet()
@@ -304,6 +318,7 @@ def merge_step(new, delta, total, g, ctx):
         new.d = {}
         prune_twice(delta, ctx)
         prune_twice(total, ctx)
+        ctx.compact([delta, total])
         return
     if isinstance(g, bool) and not g:
         return
@@ -315,6 +330,7 @@ def merge_step(new, delta, total, g, ctx):
     new.d = nn.d
     prune_twice(delta, ctx)
     prune_twice(total, ctx)
+    ctx.compact([new, delta, total])
 
 
 class RowTok:
@@ -365,6 +381,10 @@ class RelVec:
     def present(self, t):
         c = self.d.get(t)
         return c[0] if c else False
+
+    def compact(self, nm):
+        for t, c in self.d.items():
+            self.d[t] = [nm(x) for x in c]
 
     def twice(self, t):
         c = self.d.get(t)
@@ -467,6 +487,10 @@ class LatVec:
         r = LatVec(self.name)
         r.rows = {rid: [And_(ex, g), list(v)] for rid, (ex, v) in self.rows.items()}
         return r
+
+    def compact(self, nm):
+        for rid, (ex, valts) in self.rows.items():
+            self.rows[rid] = [nm(ex), [(nm(c), v) for c, v in valts] if len(valts) > 1 else valts]
 
 
 class Struct:
